@@ -2,7 +2,7 @@
 C17 — helper lemmas (key text, interval fields).  Paths: Lemmas/C17Path.lean, trees: Lemmas/C17Tree.lean,
 ascii tables: Lemmas/C17Ascii.lean.
 -/
-import GlotaranModel.C17
+import GlotaranProofs.Lemmas.C17Regex
 namespace Glotaran.C17
 
 /-! ### intervals -/
@@ -64,22 +64,12 @@ theorem tupleWordMatch_render (a b : Str) (ha : IsLabel a) (hb : IsLabel b) :
     have hcomma : classB ',' = true := by decide
     have hblank : classB ' ' = true := by decide
     have hparen : classB ')' = false := by decide
-    simp only [renderPair, tupleWordMatch, List.cons_append, hc, Bool.true_and]
+    rw [tupleWordMatch_eq_det]
+    simp only [renderPair, tupleWordMatchDet, List.cons_append, hc, Bool.true_and, beq_self_eq_true]
     rw [dropWhile_append_all classB a' _ h1]
     simp only [List.dropWhile_cons, hcomma, hblank, if_true]
     rw [dropWhile_append_all classB b _ h2]
     simp [hparen]
-
-/-- reading word characters only extends the current run -/
-theorem wordRunsAux_append_word (xs tail cur : Str) (h : ∀ c ∈ xs, isWordChar c = true) :
-    wordRunsAux (xs ++ tail) cur = wordRunsAux tail (xs.reverse ++ cur) := by
-  induction xs generalizing cur with
-  | nil => rfl
-  | cons x xs ih =>
-    have hx : isWordChar x = true := h x (by simp)
-    simp only [List.cons_append, wordRunsAux, hx, if_true]
-    rw [ih (x :: cur) (fun c hc => h c (by simp [hc]))]
-    simp
 
 theorem wordFindall_render (a b : Str) (ha : IsLabel a) (hb : IsLabel b) :
     wordFindall (renderPair a b) = [a, b] := by
@@ -91,7 +81,8 @@ theorem wordFindall_render (a b : Str) (ha : IsLabel a) (hb : IsLabel b) :
   have hq : isWordChar ')' = false := by decide
   have hra : a.reverse ≠ [] := by simpa using hane
   have hrb : b.reverse ≠ [] := by simpa using hbne
-  simp only [wordFindall, renderPair, wordRunsAux, hp]
+  rw [wordFindall_eq_det]
+  simp only [renderPair, wordRunsAux, hp]
   simp only [List.isEmpty_nil, if_true, Bool.false_eq_true, if_false]
   rw [wordRunsAux_append_word a _ [] haw]
   simp only [List.append_nil, wordRunsAux, hc, hs, Bool.false_eq_true, if_false, List.isEmpty_nil, if_true]
@@ -132,7 +123,8 @@ theorem wordRunsAux_labels (s cur : Str) (hcur : ∀ c ∈ cur, isWordChar c = t
           · intro c hc; exact hcur c (by simpa using hc)
         · exact ih [] (by simp) w h
 
-theorem wordFindall_labels (s : Str) : ∀ w ∈ wordFindall s, IsLabel w :=
-  wordRunsAux_labels s [] (by simp)
+theorem wordFindall_labels (s : Str) : ∀ w ∈ wordFindall s, IsLabel w := by
+  rw [wordFindall_eq_det]
+  exact wordRunsAux_labels s [] (by simp)
 
 end Glotaran.C17
